@@ -224,3 +224,15 @@ Inductive enc_ops : list sop -> list Z -> Prop :=
 Inductive enc_width : option Z -> list Z -> Prop :=
 | enc_width_none : enc_width None []
 | enc_width_some : forall w bs, encodes bs w -> enc_width (Some w) bs.
+
+(* a well-formed program: operators as above, starting with no contour and no hints; when a width
+   is present the first operator still fits the operand stack *)
+Definition prog_wf (maxargs : Z) (w : option Z) (ops : list sop) : Prop :=
+  ops_wf maxargs false 0 ops /\
+  match w, ops with
+  | Some _, o :: _ => len (args_of o) + 1 <= maxargs
+  | _, _ => True
+  end.
+
+(* the path the specification assigns to a program *)
+Definition prog_path (ops : list sop) : list cmd := path_of (flat_map expand ops).
